@@ -47,7 +47,7 @@ def fns(common):
     done_decl = lambda: astload.find_definition(SRC, FLT, 'done')
     C['hooks'] = C['hooks'] + [ref_member_hook(), hooks.member_default_args_hook('done', r'interval_t', 'cgd_done', done_decl)]
     C['members'] = [(r'^has_armijo\|nano::solver_state_t', 'nv_cgd_has_armijo'), (r'^has_wolfe\|nano::solver_state_t', 'nv_cgd_has_wolfe'), (r'^has_approx_armijo\|nano::solver_state_t', 'nv_has_approx_armijo'), (r'^has_approx_wolfe\|nano::solver_state_t', 'nv_has_approx_wolfe'),
-                    (r'^updateA\|.*interval_t', 'cgd_updateA'), (r'^updateB\|.*interval_t', 'cgd_updateB'), 
+                    (r'^updateA\|.*interval_t', 'cgd_updateA'), (r'^converged\|.*interval_t', 'cgd_converged'), (r'^updateB\|.*interval_t', 'cgd_updateB'), 
                     (r'^move\|.*lsearchk_cgdescent_t', 'cgd_move'), (r'^updateU\|.*lsearchk_cgdescent_t', 'cgd_updateU'),
                     (r'^update\|.*lsearchk_cgdescent_t \*\|#3', 'cgd_update'), (r'^bracket\|.*lsearchk_cgdescent_t', 'cgd_bracket')] + C['members']
     C['calls'] = [(r'^make_params\|', 'cgd_make_params'), (r'^operator\(\)\|bool \(const double\) const\|\(lambda', 'cgd_muc(self, {1}, &interval, logger, &params)'), (r'^get\|__tuple_element_t<0UL, tuple<double, double>>', '{0}._0'), (r'^get\|__tuple_element_t<1UL, tuple<double, double>>', '{0}._1'), (r'^ctor\|nano::lsearchk_cgdescent_t::interval_t\|', 'nv_cgd_interval_make({&0}, {&1}, {2}, {&3})'), (r'^secant\|', 'nv_secant({&0}, {&1})')] + C['calls']
@@ -55,6 +55,7 @@ def fns(common):
     I = 'struct nv_cgd_interval'
     return {f.cname: f for f in [mk('cgd_interval_ctor', 'interval_t', FLT, self_struct=I, ref_member_pointers=True),
             mk('cgd_done', 'done', FLT, self_struct=I),
+            mk('cgd_converged', 'converged', FLT, self_struct=I),
             mk('cgd_updateA', 'updateA', FLT, self_struct=I),
             mk('cgd_updateB', 'updateB', FLT, self_struct=I),
             mk('cgd_make_params', 'make_params', 'make_params', self_struct=None, aggregates=['struct nv_cgd_params'], ret='struct nv_cgd_params'),
@@ -76,7 +77,8 @@ def targets(common, upd, hd):
     CAD = ['--sat-solver', 'cadical']     # minisat needs > 200 s on the criterion-or-give-up clause of cgd_muc, cadical 4 s
     return [
         Target('cgd_interval_ctor', F('cgd_interval_ctor'), H),
-        Target('cgd_done', F('cgd_done'), H),
+        Target('cgd_converged', F('cgd_converged'), H),
+        Target('cgd_done', F('cgd_done', 'cgd_converged'), H, replace=['cgd_converged']),
         Target('cgd_updateU', F('cgd_updateU', 'cgd_move', 'cgd_updateA', 'cgd_updateB') + [upd(), hd()], H, replace=['lsearchk_update'], cbmc_flags=CAD),
         Target('cgd_update', F('cgd_update', 'cgd_updateU', 'cgd_updateA', 'cgd_updateB') + [hd()], H, replace=['cgd_updateU'], cbmc_flags=CAD),
         Target('cgd_bracket', F('cgd_bracket', 'cgd_updateU', 'cgd_move', 'cgd_updateB') + [upd(), hd()], H, replace=['cgd_updateU', 'lsearchk_update'], cbmc_flags=CAD),
